@@ -258,5 +258,82 @@ theorem staticMass_ok (env : Env) (mono : Bool) (a : Annotation)
         sumM_ok _ _ map (fun p hp => ruleMass_ok env mono a.seq p (List.all_eq_true.mp h p hp)), bind_ok, pure_eq_ok]
       rfl
 
+
+theorem chem_lookup_mem {β} (k : Nat) (l : List (Nat × β)) (v : β) (h : lookup k l = some v) : (k, v) ∈ l := by
+  induction l with
+  | nil => simp [lookup] at h
+  | cons p l ih =>
+    obtain ⟨a, b⟩ := p
+    simp only [lookup] at h
+    split at h
+    · rename_i hk; injection h with h; subst hk; subst h; exact List.mem_cons_self
+    · exact List.mem_cons_of_mem _ (ih h)
+
+theorem residueMass_ok (mono : Bool) (seq : List Char) (hT : Gen.aaComp = residueFormula)
+    (h : seq.all (fun c => (lookup c.toNat residueFormula).isSome) = true) :
+    residueMass mono seq = .ok (residueSum lib mono seq) := by
+  unfold residueMass residueSum
+  apply sumM_ok
+  intro c hc
+  have hk := List.all_eq_true.mp h c hc
+  cases hl : lookup c.toNat residueFormula with
+  | none => rw [hl] at hk; simp at hk
+  | some f =>
+    simp only [aaMass, hT, hl, Option.map_some, Option.getD_some]
+    rfl
+
+/-- one entry of the backbone-offset table against what `adjust_mass` adds for that ion type -/
+def adjustEntryOk (mono : Bool) (p : Key × Rat) : Bool :=
+  if p.1 = ionP || p.1 = ionN then decide (fragmentAdjMass mono p.1 = some p.2)
+  else match fragmentAdjMass mono p.1, fragmentIonAdjMass mono p.1 with
+    | some fa, some fi => decide (fa + fi = p.2 + lib.hplus mono)
+    | _, _ => false
+
+/-- the table obligation behind `adjust_mass`: for every ion type of the specification table and both modes the
+library's neutral adjustment (+ ion adjustment for fragments) is the backbone offset (+ h⁺) -/
+def adjustTablesOk : Bool := [true, false].all fun mono => (offsetTable lib mono).all (adjustEntryOk mono)
+
+theorem adjustEntry_of_tables (hT : adjustTablesOk = true) (mono : Bool) (ion : Key) (v : Rat)
+    (hv : neutralOffset lib mono ion = some v) : adjustEntryOk mono (ion, v) = true := by
+  have hm := chem_lookup_mem ion _ v hv
+  unfold adjustTablesOk at hT
+  simp only [List.all_cons, List.all_nil, Bool.and_true, Bool.and_eq_true] at hT
+  cases mono
+  · exact List.all_eq_true.mp hT.2 _ hm
+  · exact List.all_eq_true.mp hT.1 _ hm
+
+theorem adjustMass_eq (hT : adjustTablesOk = true) (base : Rat) (charge : Option Int) (ion : Key) (mono : Bool)
+    (isotope : Int) (loss : Rat) (precision : Option Int) (v : Rat) (hv : neutralOffset lib mono ion = some v) :
+    adjustMass base charge ion mono isotope loss none precision
+      = .ok (roundOpt (base + v + Spec.chargeTerm lib mono ion (charge.getD 0) none
+              + (isotope : Rat) * lib.neutron + loss) precision) := by
+  have he := adjustEntry_of_tables hT mono ion v hv
+  unfold adjustEntryOk at he
+  unfold adjustMass Mass.chargeTerm Spec.chargeTerm
+  by_cases hp : (ion = ionP || ion = ionN) = true
+  · simp only [hp, if_true] at he ⊢
+    have hf : fragmentAdjMass mono ion = some v := of_decide_eq_true he
+    rw [bind_ok, hf, pure_eq_ok]
+    simp only
+    congr 2
+    show _ = base + v + (charge.getD 0 : Rat) * Gen.protonMass + (isotope : Rat) * Gen.neutronMass + loss
+    ring
+  · simp only [hp] at he ⊢
+    cases hfa : fragmentAdjMass mono ion with
+    | none => rw [hfa] at he; simp at he
+    | some fa =>
+      cases hfi : fragmentIonAdjMass mono ion with
+      | none => rw [hfa, hfi] at he; simp at he
+      | some fi =>
+        rw [hfa, hfi] at he
+        have hs : fa + fi = v + lib.hplus mono := of_decide_eq_true he
+        simp only [Bool.false_eq_true, if_false]
+        rw [bind_ok, pure_eq_ok]
+        simp only
+        congr 2
+        show _ = base + v + (lib.hplus mono + ((charge.getD 0 : Int) - 1 : Rat) * Gen.protonMass)
+          + (isotope : Rat) * Gen.neutronMass + loss
+        linarith
+
 end Mass
 end Pept
